@@ -45,11 +45,22 @@ func opRole(v ssa.Value, node ssa.Value) string {
 	return ""
 }
 
+// opParamRoles: when the operator's computation lives in a helper, the roles of the helper's
+// parameters (taken from the arguments at its call site in the evaluator function).
+var opParamRoles map[ssa.Value]string
+
+func opRoleOf(v ssa.Value, node ssa.Value) string {
+	if r, ok := opParamRoles[v]; ok && r != "tag" {
+		return r
+	}
+	return opRole(v, node)
+}
+
 func opExpr(v ssa.Value, node ssa.Value, depth int) string {
 	if depth > 6 {
 		return "?"
 	}
-	if r := opRole(v, node); r != "" {
+	if r := opRoleOf(v, node); r != "" {
 		return r
 	}
 	switch x := v.(type) {
@@ -211,14 +222,133 @@ func runOPTAB(c *Ctx, r *Result, rule string) int {
 				}
 			}
 		}
+		opParamRoles = nil
 		if best == nil {
+			// the switch may have been moved into a helper that is handed the operator and
+			// the operands: follow the static calls of the evaluator function
+			for _, ins := range instrsIn(f) {
+				call, ok := ins.(*ssa.Call)
+				if !ok || ins.Parent() != f {
+					continue
+				}
+				callee := call.Call.StaticCallee()
+				if callee == nil || !c.G.InSc[callee] || len(callee.Blocks) == 0 {
+					continue
+				}
+				roles := map[ssa.Value]string{}
+				hasTag := false
+				for i, a := range call.Call.Args {
+					if i >= len(callee.Params) {
+						break
+					}
+					switch {
+					case isTag(a):
+						roles[callee.Params[i]] = "tag"
+						hasTag = true
+					case opRole(a, node) != "":
+						roles[callee.Params[i]] = opRole(a, node)
+					}
+				}
+				if !hasTag {
+					continue
+				}
+				calleeTag := func(v ssa.Value) bool { return roles[v] == "tag" }
+				for _, b := range callee.Blocks {
+					for _, i2 := range b.Instrs {
+						phi, ok := i2.(*ssa.Phi)
+						if !ok {
+							break
+						}
+						cnt := 0
+						for i := range phi.Edges {
+							if _, ok := caseConstsOf(caseEntry(b.Preds[i], calleeTag), calleeTag); ok {
+								cnt++
+							}
+						}
+						if cnt > bestN {
+							best, bestN = phi, cnt
+							opParamRoles = roles
+							isTag = calleeTag
+							f = callee
+						}
+					}
+				}
+			}
+		}
+		type caseVal struct {
+			v   ssa.Value
+			blk *ssa.BasicBlock
+		}
+		var cvs []caseVal
+		if best != nil {
+			for i, e := range best.Edges {
+				cvs = append(cvs, caseVal{e, best.Block().Preds[i]})
+			}
+		} else {
+			// each case returns its value directly (a helper whose switch cases are returns)
+			try := func(g *ssa.Function, tagOf func(ssa.Value) bool) []caseVal {
+				var out []caseVal
+				n := 0
+				for _, b := range g.Blocks {
+					ret, ok := b.Instrs[len(b.Instrs)-1].(*ssa.Return)
+					if !ok || len(ret.Results) == 0 {
+						continue
+					}
+					if _, ok := caseConstsOf(caseEntry(b, tagOf), tagOf); ok {
+						n++
+						out = append(out, caseVal{ret.Results[0], b})
+					}
+				}
+				if n >= 2 {
+					return out
+				}
+				return nil
+			}
+			cvs = try(f, isTag)
+			if cvs == nil {
+				for _, ins := range instrsIn(f) {
+					call, ok := ins.(*ssa.Call)
+					if !ok || ins.Parent() != f {
+						continue
+					}
+					callee := call.Call.StaticCallee()
+					if callee == nil || !c.G.InSc[callee] || len(callee.Blocks) == 0 {
+						continue
+					}
+					roles := map[ssa.Value]string{}
+					hasTag := false
+					for i, a := range call.Call.Args {
+						if i >= len(callee.Params) {
+							break
+						}
+						switch {
+						case isTag(a):
+							roles[callee.Params[i]] = "tag"
+							hasTag = true
+						case opRole(a, node) != "":
+							roles[callee.Params[i]] = opRole(a, node)
+						}
+					}
+					if !hasTag {
+						continue
+					}
+					calleeTag := func(v ssa.Value) bool { return roles[v] == "tag" }
+					if got := try(callee, calleeTag); got != nil {
+						cvs, opParamRoles, isTag, f = got, roles, calleeTag, callee
+						break
+					}
+				}
+			}
+		}
+		if len(cvs) == 0 {
 			r.LoseAnchor("OPTAB: %s has no switch on node.Type that yields one value per operator", sp.fn)
 			continue
 		}
 		got := map[string][]string{}
 		caseVals := map[ssa.Value]bool{}
-		for i, e := range best.Edges {
-			entry := caseEntry(best.Block().Preds[i], isTag)
+		for _, cv := range cvs {
+			e := cv.v
+			entry := caseEntry(cv.blk, isTag)
 			ks, ok := caseConstsOf(entry, isTag)
 			if !ok {
 				continue
